@@ -1027,6 +1027,9 @@ func qualifyType(t string, sf *SpecFile) string {
 	if i := strings.Index(t, "["); i >= 0 {
 		t = t[:i]
 	}
+	if t == "error" {
+		return star + t // the predeclared interface has no package
+	}
 	if i := strings.LastIndex(t, "."); i >= 0 {
 		alias := t[:i]
 		if p, ok := sf.Imports[alias]; ok {
